@@ -161,6 +161,13 @@ def run_case(case):
         if rng.random() < 0.2:
             body1[:, 1] = body2[0, 1]
             body2[:, 1] = body2[0, 1]        # zero variance in both sets on one column
+    elif regime == 'R' and prec == 'float64' and rng.random() < 0.3:
+        # integer traces of large magnitude (32 / 64-bit samples): sums of squares far beyond 2^63, judged with the rounding bound
+        tdt = ['int32', 'int64', 'uint32'][int(rng.integers(3))]
+        mag = float(rng.choice([3e4, 1.5e9, 2.1e9])) if tdt != 'int64' else float(rng.choice([1.5e9, 4e12]))
+        body1 = np.round(mag + rng.normal(0, mag / 50, (n1, L)))
+        body2 = np.round(mag * 1.001 + rng.normal(0, mag / 40, (n2, L)))
+        t.count('large_magnitude_integer_traces')
     else:
         if tdt not in ('float32', 'float64'):
             tdt = 'float64'
@@ -173,8 +180,16 @@ def run_case(case):
     s2[:, cid] = 1000 + np.arange(n2)
     # frame: its first element is the id column
     others = [c for c in range(1, L)]
-    fk = int(rng.integers(5))
-    if fk == 0:
+    fk = int(rng.integers(6))
+    if fk == 5 and L >= 4:
+        # end points span exactly the length, but the indices in between are shuffled / repeated (looks consecutive, is not)
+        m = int(rng.integers(4, L + 1))
+        mid = rng.permutation(np.arange(1, m - 1)).tolist()
+        if rng.random() < 0.3:
+            mid[0] = mid[-1]
+        lst = [0] + mid + [m - 1]
+        frame, fidx = (lst if rng.random() < 0.5 else np.array(lst)), lst
+    elif fk == 0 or fk == 5:
         frame, fidx = None, list(range(L))
     elif fk == 1:
         step = int(rng.integers(1, 3))
